@@ -10,7 +10,7 @@ Definition entries : list (string * (sx -> sx)) :=
     ("C07", run_C07); ("C08", run_C08); ("C15", run_C15);
     ("PRIM", run_prim);
     ("FIELD", run_field); ("LINE", run_line);
-    ("REGFILE", run_regfile); ("BLOCKFILE", run_blockfile); ("SECTIONFILE", run_sectionfile) ].
+    ("REGFILE", run_regfile); ("REGSTREAM", run_regstream); ("BLOCKFILE", run_blockfile); ("SECTIONFILE", run_sectionfile) ].
 
 Fixpoint find_entry (name : str) (es : list (string * (sx -> sx))) : option (sx -> sx) :=
   match es with
